@@ -248,7 +248,7 @@ func wireSweep(args []string) int {
 			seed := t.seeds[sn]
 			nSeeds++
 			// the unmodified seed must be accepted: otherwise the sweep explores the neighbourhood of garbage
-			if !st.feed(t.name, t.f, seed, map[string]any{"seed": sn, "m": "none"}) {
+			if !st.feed(t.name, t.f, seed, map[string]any{"seed": sn, "m": "none"}) && st.hangs < 3 {
 				fmt.Fprintf(os.Stderr, "wire-sweep: seed %s is not accepted by %s\n", sn, t.name)
 				return 2
 			}
@@ -266,6 +266,6 @@ func wireSweep(args []string) int {
 	}
 	defer w.Close()
 	w.Write(mustJSON(map[string]any{"targets": len(targets), "seeds": nSeeds, "inputs": st.Inputs, "accepted": st.Accepts, "panics": st.Panics,
-		"slow": st.Slow, "big_alloc": st.Big, "problems": st.Problems, "by_entry": st.ByEntry, "per_seed": perSeed}))
+		"slow": st.Slow, "skipped_after_hangs": st.Skipped, "big_alloc": st.Big, "problems": st.Problems, "by_entry": st.ByEntry, "per_seed": perSeed}))
 	return 0
 }
